@@ -38,6 +38,8 @@ type RunConfig struct {
 	RequireReach  []string       `json:"require_reach,omitempty"`
 	Workers       int            `json:"workers,omitempty"`
 	NoMerge       bool           `json:"no_if_conversion,omitempty"`
+	MaxWallS      int            `json:"max_wall_s"` // wall-clock budget of the configuration; exceeded = inconclusive
+	deadline      time.Time
 }
 
 func (c *RunConfig) defaults() {
@@ -64,6 +66,9 @@ func (c *RunConfig) defaults() {
 	}
 	if c.Workers == 0 {
 		c.Workers = 16
+	}
+	if c.MaxWallS == 0 {
+		c.MaxWallS = 1500
 	}
 }
 
@@ -411,6 +416,7 @@ func (eng *Engine) runPath(cfg *RunConfig, prefix []bool, z3 *SolverProc) (res *
 func (eng *Engine) Explore(cfg *RunConfig) *Report {
 	cfg.defaults()
 	start := time.Now()
+	cfg.deadline = start.Add(time.Duration(cfg.MaxWallS) * time.Second)
 	rep := &Report{Config: cfg, Status: map[string]int{}, Labels: map[string]*LabelStats{}, Reach: map[string]int{},
 		ReachModels: map[string]Model{}, Funcs: map[string]int{}}
 	var mu sync.Mutex
@@ -474,7 +480,7 @@ func (eng *Engine) Explore(cfg *RunConfig) *Report {
 					funcs[f] = true
 				}
 				switch pr.status {
-				case "unsupported", "unwind", "budget", "engine-error":
+				case "unsupported", "unwind", "budget", "timebudget", "engine-error":
 					problems[pr.status+": "+firstLine(pr.msg, 600)] = true
 				}
 				sample := PathSample{Decisions: decStr(pr.decisions), Status: pr.status, Asserts: map[string]string{}, Trace: pr.trace}
@@ -515,6 +521,10 @@ func (eng *Engine) Explore(cfg *RunConfig) *Report {
 					rep.Samples = append(rep.Samples, sample)
 				}
 				work = append(work, pr.forks...)
+				if time.Now().After(cfg.deadline) && (len(work) > 0 || inflight > 0) && !stop {
+					problems[fmt.Sprintf("time budget %ds exhausted with %d prefixes pending", cfg.MaxWallS, len(work))] = true
+					stop = true
+				}
 				if rep.Paths >= cfg.MaxPaths && len(work) > 0 {
 					problems[fmt.Sprintf("path budget %d exhausted with %d prefixes pending", cfg.MaxPaths, len(work))] = true
 					stop = true
